@@ -236,6 +236,38 @@ func runCase(drv *lean.Driver, reg *metrics.Metrics, rt *router.Router, hp *http
 			}
 			counts["plain_string_tags"]++
 		}
+		// … and a JSON receiver object (exactly the keys "type" - a non-empty string - and optionally "data") is kept as a
+		// physical receiver with that type and that data
+		if c.Tag != nil && json.Valid([]byte(*c.Tag)) {
+			var obj map[string]json.RawMessage
+			var typ string
+			if json.Unmarshal([]byte(*c.Tag), &obj) == nil && obj != nil && len(obj) <= 2 && obj["type"] != nil && json.Unmarshal(obj["type"], &typ) == nil && typ != "" &&
+				(len(obj) == 1 || obj["data"] != nil) && strings.Count(*c.Tag, `"type"`) == 1 && strings.Count(*c.Tag, `"data"`) <= 1 {
+				if !matched {
+					return "a JSON receiver object was not routed", fmt.Sprintf("tag %s is a receiver object of type %q; the router did not match it", *c.Tag, typ), true
+				}
+				var got struct {
+					Type string          `json:"type"`
+					Data json.RawMessage `json:"data"`
+				}
+				if err := json.Unmarshal(cqe.Completion.Router.Recv, &got); err != nil || got.Type != typ {
+					return "a JSON receiver object was not kept as that physical receiver", fmt.Sprintf("tag %s stored as %s", *c.Tag, cqe.Completion.Router.Recv), true
+				}
+				var a, b any
+				wantData := obj["data"]
+				if wantData == nil {
+					wantData = json.RawMessage("null")
+				}
+				gotData := got.Data
+				if gotData == nil {
+					gotData = json.RawMessage("null")
+				}
+				if json.Unmarshal(wantData, &a) != nil || json.Unmarshal(gotData, &b) != nil || !reflect.DeepEqual(a, b) {
+					return "a JSON receiver object was stored with different data", fmt.Sprintf("tag %s stored as %s", *c.Tag, cqe.Completion.Router.Recv), true
+				}
+				counts["receiver_object_tags"]++
+			}
+		}
 		if matched != (rep["matched"] == true) {
 			return "router match decision differs", fmt.Sprintf("tag %q: impl matched=%v model=%v", deref(c.Tag), matched, rep["matched"]), false
 		}
